@@ -42,9 +42,11 @@ type Item struct {
 	Iters int    `json:"iters,omitempty"`
 	Pairs []Pair `json:"pairs,omitempty"`
 	Tab   bool   `json:"tab,omitempty"` // fields separated by tabs and padding instead of one space
-	Key   string `json:"key,omitempty"`
-	Val   string `json:"val,omitempty"`
-	Text  string `json:"text,omitempty"`
+	// PureTab: every field separator is a single tab (a line without any blank)
+	PureTab bool   `json:"puretab,omitempty"`
+	Key     string `json:"key,omitempty"`
+	Val     string `json:"val,omitempty"`
+	Text    string `json:"text,omitempty"`
 }
 
 // Config is one configuration (input file) and how it is fed to the library.
@@ -78,9 +80,13 @@ func (it Item) line() string {
 	if it.Tab {
 		sep = "  \t "
 	}
+	usep := " "
+	if it.PureTab {
+		sep, usep = "\t", "\t"
+	}
 	b.WriteString(sep + strconv.Itoa(it.Iters))
 	for _, p := range it.Pairs {
-		b.WriteString(sep + p.V + " " + p.U)
+		b.WriteString(sep + p.V + usep + p.U)
 	}
 	return b.String()
 }
@@ -347,6 +353,9 @@ func ulps(x float64, n int, up bool) float64 {
 func relClose(a, b, tol float64) bool {
 	if a == b {
 		return true
+	}
+	if math.IsInf(a, 0) || math.IsInf(b, 0) || math.IsNaN(a) || math.IsNaN(b) {
+		return false // (an infinite or undefined value is close to nothing but itself)
 	}
 	return math.Abs(a-b) <= tol*math.Max(math.Abs(a), math.Abs(b))
 }
@@ -1197,7 +1206,7 @@ func fmtVal(x float64, form int) string {
 
 func Gen(t *rapid.T) Case {
 	var c Case
-	class := rapid.SampledFrom([]string{"small", "small", "medium", "medium", "medium", "medium", "large", "large", "tiny", "wide", "huge"}).Draw(t, "class")
+	class := rapid.SampledFrom([]string{"small", "small", "medium", "medium", "medium", "medium", "large", "large", "tiny", "wide", "huge", "small", "medium", "many"}).Draw(t, "class")
 	c.Gen = class
 	ncfg := rapid.SampledFrom([]int{2, 2, 2, 2, 2, 2, 1, 3, 3, 4}).Draw(t, "ncfg")
 	nbench := rapid.IntRange(1, 8).Draw(t, "nbench")
@@ -1220,12 +1229,24 @@ func Gen(t *rapid.T) Case {
 		ncfg = 2
 	case "tiny":
 		nmin, nmax = 1, 3
+	case "many":
+		// so many benchmarks of such magnitude that the product of their means is no float64
+		nmin, nmax = 1, 2
+		nbench = rapid.IntRange(60, 75).Draw(t, "nbenchmany")
+		npkg, ncfg = 1, 2
 	case "wide":
 		nmin, nmax = 1, 3
 		nbench = rapid.IntRange(7, 16).Draw(t, "nbenchwide")
 		ncfg = rapid.SampledFrom([]int{2, 2, 2, 1, 3}).Draw(t, "ncfgwide")
 	}
-	benches := rapid.Permutation(benchPool).Draw(t, "benches")[:nbench]
+	var benches []string
+	if class == "many" {
+		for k := 0; k < nbench; k++ {
+			benches = append(benches, "Many/i="+strconv.Itoa(k))
+		}
+	} else {
+		benches = rapid.Permutation(benchPool).Draw(t, "benches")[:nbench]
+	}
 	nunits := rapid.SampledFrom([]int{1, 1, 2, 2, 3}).Draw(t, "nunits")
 	var units []string
 	for _, u := range rapid.Permutation(unitPool).Draw(t, "units") {
@@ -1244,7 +1265,7 @@ func Gen(t *rapid.T) Case {
 		c.SplitBy = []string{"pkg"}
 	}
 	c.Order = rapid.SampledFrom([]string{"", "", "name", "delta", "delta", "rname", "rdelta", "rrdelta"}).Draw(t, "order")
-	c.GeoMean = rapid.Bool().Draw(t, "geomean")
+	c.GeoMean = rapid.Bool().Draw(t, "geomean") || class == "many"
 	c.NoRange = rapid.Bool().Draw(t, "norange")
 	allowMissing := rapid.IntRange(0, 9).Draw(t, "allowmissing") < 5
 	allowRepeat := rapid.IntRange(0, 9).Draw(t, "allowrepeat") < 3
@@ -1255,6 +1276,9 @@ func Gen(t *rapid.T) Case {
 		for ui, u := range units {
 			p := &plan{}
 			p.base = math.Pow(10, float64(rapid.IntRange(0, 90).Draw(t, "mag"))/10) * 1.37
+			if class == "many" {
+				p.base = math.Pow(10, float64(rapid.IntRange(60, 90).Draw(t, "magmany"))/10) * 1.37
+			}
 			kinds := []int{0, 0, 0, 0, 0, 1, 3, 3}
 			switch u {
 			case "B/op", "allocs/op":
@@ -1399,7 +1423,7 @@ func Gen(t *rapid.T) Case {
 			}
 			iters := rapid.SampledFrom([]int{1, 100, 1000000, 2000000000}).Draw(t, "iters")
 			for _, r := range runs {
-				it := Item{K: "b", Name: benches[r.bi], Iters: iters, Tab: tab}
+				it := Item{K: "b", Name: benches[r.bi], Iters: iters, Tab: tab, PureTab: tab && rapid.IntRange(0, 3).Draw(t, "puretab") == 0}
 				for _, ui := range r.units {
 					p := plans[[2]int{r.bi, ui}]
 					it.Pairs = append(it.Pairs, Pair{V: fmtVal(draw(p, ci), p.form), U: units[ui]})
